@@ -12,6 +12,7 @@ from hypothesis import strategies as st
 
 from vlib import world as W
 from vlib import simbus
+from vlib import simkernel as sk
 from vlib import refcodec as R
 
 SA_S = 0x28
@@ -44,7 +45,8 @@ def _strategy():
         "cycles": st.lists(cyc, min_size=1, max_size=4),
         "cycle_mode": st.sampled_from(["long", "long", "short"]),
         "nsub": st.integers(1, 2),
-        "stop_mode": st.sampled_from(["app", "app", "in_callback"]),
+        "stop_mode": st.sampled_from(["app", "app", "in_callback", "app_during_callback"]),
+        "cb_dur": st.sampled_from([0.0, 0.0, 0.005, 0.03]),        # time the application's data callback takes
         # the sending Dm1 object also subscribes (one object for both directions) while a foreign node sends DM1 too, and the
         # application hands out the SAME lamp dict object every cycle (built once from the first cycle's lamps)
         "also_rx": st.sampled_from([False, False, True]),
@@ -185,6 +187,7 @@ class C16:
                 rd.subscribe((lambda i=i: (lambda sa, lamps, dtcs, ts: got[i].append((w.sim.now, sa, dict(lamps), [dict(d) for d in dtcs]))))())
             supplied = []
             idx = [0]
+            cb_dur = p.get("cb_dur", 0.0)
             own_rx = []
             keep = dict(p["cycles"][0]["lamps"])          # the application's own, persistent lamp dict
             keep0 = dict(keep)
@@ -205,6 +208,14 @@ class C16:
                 if p.get("stop_mode") == "in_callback" and idx[0] == stop_at and not stopped_in_cb:
                     dm1.stop_send(cb)              # stop from inside the data callback: this cycle is the last one
                     stopped_in_cb.append(w.sim.now)
+                if p.get("stop_mode") == "app_during_callback" and idx[0] == stop_at and not stopped_in_cb and cb_dur:
+                    # the application thread stops the cycle while this callback is still running
+                    def do_stop():
+                        dm1.stop_send(cb)
+                        stopped_in_cb.append(w.sim.now)
+                    w.sim.schedule(w.sim.now + cb_dur / 2, do_stop)
+                if cb_dur:
+                    sk.FAKE_TIME.sleep(cb_dur)
                 return lamps, dtcs
 
             # duration of the longest message
@@ -276,7 +287,8 @@ class C16:
             if any(len(d) > 1 for (_, d) in rec):
                 multi_rx = True
             if p["cycle_mode"] == "long":
-                if rec != sup:
+                # (a cycle whose data callback was running when stop_send was called may or may not still go out)
+                if rec != sup and not (stopped_in_cb and rec == sup[:-1]):
                     bad = next((k for k, (a, b) in enumerate(zip(rec, sup)) if a != b), min(len(rec), len(sup)))
                     what = "count"
                     detail = "%d received, %d supplied" % (len(rec), len(sup))
@@ -300,6 +312,26 @@ class C16:
                         V("dm1-not-supplied", "subscriber %d received a DM1 value that was never supplied (or more often than "
                           "supplied): lamps %r, %d DTCs" % (i, r[0], len(r[1])), site)
                         break
+        # no DM1 is STARTED after stop_send has returned from a call made by another thread (a transfer that was already
+        # running may finish): first frames of a DM1 are the single frame, the BAM announcement, a multi-PG frame with it
+        if p.get("stop_mode") == "app_during_callback" and stopped_in_cb:
+            for e in log:
+                if e.node != "S" or e.t <= t_stop + 1e-9:
+                    continue
+                f = R.id_fields(e.can_id)
+                first = (f["pf"] == 0xFE and f["ps"] == 0xCA)
+                if f["pf"] in (0xEC, 0x4D) and f["ps"] == 255 and len(e.data) >= 8:
+                    ctrl = e.data[0] if f["pf"] == 0xEC else (e.data[0] & 0xF)
+                    first = ctrl in (32, 4) and R.pgn_from_le(e.data[-3:]) == 0xFECA
+                if f["pf"] == 0x25:
+                    try:
+                        first = any(g[2] == 0xFECA for g in R.mpg_unpack(e.data))
+                    except ValueError:
+                        first = False
+                if first:
+                    V("dm1-started-after-stop", "a DM1 was started %.4f s after stop_send() had returned to the application thread "
+                      "(the data callback was still running when it was called)" % (e.t - t_stop), site)
+                    break
         # silence after stop_send
         for e in log:
             if e.t <= t_quiet_from or e.node != "S":
